@@ -13,6 +13,7 @@ import SwimVerif.Proofs.StoresHandover
 import SwimVerif.Proofs.StoresNeverLost
 import SwimVerif.Proofs.StoresCrash
 import SwimVerif.Proofs.StoresCrashRun
+import SwimVerif.Proofs.StoresAlloc
 
 set_option linter.unusedVariables false
 namespace SwimVerif.Store
@@ -498,5 +499,27 @@ example : Rocks.SCrash (Rocks.absSt (Rocks.runOut Rocks.init [.opn 0 0 [47, 97]]
     (Rocks.sstep (Rocks.sset (Rocks.absSt (Rocks.runOut Rocks.init [.opn 0 0 [47, 97]]).1) 0
       (Rocks.burn (Rocks.sget (Rocks.absSt (Rocks.runOut Rocks.init [.opn 0 0 [47, 97]]).1) 0))) .reopen).1 :=
   .burnt 0 0 [47, 97] [99] rfl (by decide) (by decide)
+
+/-- **The `2^56` hypothesis is met by every client history** (T2): a history (acknowledged ops, kills, reopens) in
+which every `get/put/delete/update/remove/clear/read_map` goes through an open handle with an id that `id_for`
+handed out on that plane (it is stored in the plane's name table at that moment), and which has fewer than `2^56`
+events, satisfies `id < 2^56` at every event — the counter grows by at most one per event, a kill inside `id_for`
+included — and therefore refines the specification. -/
+theorem C13_rocks_refines_spec_allocated_ids (evs : List Rocks.CEv) (hlen : evs.length < id56)
+    (ha : Rocks.histAlloc Rocks.init evs) :
+    (∀ e ∈ evs, Rocks.CEv.idOk e) ∧
+    ∃ souts, Rocks.SReach (Rocks.absSt Rocks.init) evs (Rocks.absSt (Rocks.crunOut Rocks.init evs).1) souts ∧
+      OutsRel (Rocks.crunOut Rocks.init evs).2 souts := by
+  have hi0 : IdsInv 1 (Rocks.abs {}) :=
+    ⟨by intro nm n h; simp [Rocks.abs, aget] at h, by intro a b n h; simp [Rocks.abs, aget] at h⟩
+  have hok := Rocks.histAlloc_idOk evs Rocks.init 0 Rocks.stInv_init hi0 hi0 (Nat.le_refl _) (Nat.le_refl _)
+    (by omega) ha
+  exact ⟨hok, C13_rocks_refines_spec_with_crashes evs hok⟩
+
+example : Rocks.histAlloc Rocks.init [.op (.opn 0 0 [47, 97]), .op (.data 0 (.idFor [98])), .op (.data 0 (.put 1 [170])),
+    .crash (.data 0 (.upd 1 [7] [8])) 1, .op (.opn 0 0 [47, 97]), .op (.data 0 (.read 1))] := by
+  refine And.intro trivial (And.intro (fun id h => by cases h) (And.intro ?_ (And.intro ?_
+    (And.intro trivial (And.intro ?_ trivial))))) <;>
+    (intro id h; cases h; exact ⟨0, [47, 97], Rocks.laneKey [47, 97] [98], by decide, by decide⟩)
 
 end SwimVerif.Store
